@@ -6,6 +6,7 @@ import (
 	"net/url"
 	"os"
 	"path/filepath"
+	"sync"
 )
 
 // settings holds pprof settings.
@@ -63,7 +64,28 @@ func writeSettings(fname string, settings *settings) error {
 		return fmt.Errorf("failed to create settings directory: %w", err)
 	}
 
-	if err := os.WriteFile(fname, data, 0644); err != nil {
+	// Write to a temporary file in the same directory and rename it over
+	// fname, so that an interrupted or failed write leaves the old settings
+	// in place instead of a truncated file.
+	tmp, err := os.CreateTemp(filepath.Dir(fname), filepath.Base(fname)+".tmp*")
+	if err != nil {
+		return fmt.Errorf("failed to write settings: %w", err)
+	}
+	_, err = tmp.Write(data)
+	if err == nil {
+		err = tmp.Chmod(0644)
+	}
+	if err == nil {
+		err = tmp.Sync()
+	}
+	if cerr := tmp.Close(); err == nil {
+		err = cerr
+	}
+	if err == nil {
+		err = os.Rename(tmp.Name(), fname)
+	}
+	if err != nil {
+		os.Remove(tmp.Name())
 		return fmt.Errorf("failed to write settings: %w", err)
 	}
 	return nil
@@ -109,8 +131,14 @@ func configMenu(fname string, u url.URL) []configMenuEntry {
 	return result
 }
 
+// settingsMu serializes updates of the settings file: the web UI serves each
+// request in its own goroutine.
+var settingsMu sync.Mutex
+
 // editSettings edits settings by applying fn to them.
 func editSettings(fname string, fn func(s *settings) error) error {
+	settingsMu.Lock()
+	defer settingsMu.Unlock()
 	settings, err := readSettings(fname)
 	if err != nil {
 		return err
